@@ -50,11 +50,15 @@ def count_loc(class_node: Any, source: str) -> int:
         source: Full source code string
 
     Returns:
-        Number of lines in class definition
+        Number of code lines in class definition (blank and comment lines excluded)
     """
     start_line = class_node.start_point[0]
     end_line = class_node.end_point[0]
-    return end_line - start_line + 1
+    lines = source.split("\n")[start_line : end_line + 1]
+
+    # Exclude blank lines and comment lines, as documented and as done for Python and Rust
+    code_lines = [s for line in lines if (s := line.strip()) and not s.startswith("//")]
+    return len(code_lines)
 
 
 def _get_class_body(class_node: Any) -> Any:
